@@ -2,6 +2,8 @@
 
 package lib
 
+import "time"
+
 // Export shim for the C03/C04 handler drivers (exists only in the go test -overlay; never in /repo).
 // It lets a driver in cmd/application (a) replace the two functions that publish New/Update
 // messages to the detector (so no Redis is needed and the publications can be counted) and
@@ -34,4 +36,25 @@ func (regManager *RegistrationManager) VerifRegStatus(d *DecoyRegistration) int 
 		}
 	}
 	return -1
+}
+
+// VerifAgeRegistration moves the registration's timeout record `by` into the past (as if it had been
+// tracked that much earlier), so that a driver can let a lifetime elapse without waiting for it.
+func (regManager *RegistrationManager) VerifAgeRegistration(d *DecoyRegistration, by time.Duration) bool {
+	r := regManager.registeredDecoys
+	r.m.Lock()
+	defer r.m.Unlock()
+	t, ok := r.transports[d.Transport]
+	if !ok {
+		return false
+	}
+	id := t.GetIdentifier(d)
+	addr := d.PhantomIp.String()
+	for _, to := range r.decoysTimeouts {
+		if to.decoy == addr && to.identifier == id {
+			to.registrationTime = to.registrationTime.Add(-by)
+			return true
+		}
+	}
+	return false
 }
